@@ -49,7 +49,7 @@ type vpInner struct {
 var vpTypes = map[string]reflect.Type{
 	"string": reflect.TypeOf(""), "int": reflect.TypeOf(0), "float64": reflect.TypeOf(0.0), "bool": reflect.TypeOf(false),
 	"strs": reflect.TypeOf([]string{}), "ints": reflect.TypeOf([]int{}), "map": reflect.TypeOf(map[string]any{}),
-	"any": reflect.TypeOf((*any)(nil)).Elem(),
+	"any":  reflect.TypeOf((*any)(nil)).Elem(),
 	"pint": reflect.TypeOf((*int)(nil)), "pstr": reflect.TypeOf((*string)(nil)),
 	"struct": reflect.TypeOf(vpInner{}), "pstruct": reflect.TypeOf((*vpInner)(nil)),
 }
